@@ -190,6 +190,10 @@ func vfGenPacket(r *rand.Rand, n int) vfPacketSpec {
 	default:
 		p.Kind = "iq"
 		p.Type = []string{"get", "set", "result", "error", "get", "set"}[r.Intn(6)]
+		if r.Intn(12) == 0 {
+			// not one of the four defined types: whatever else it is, it is not a request
+			p.Type = []string{"", "Get", "SET", "probe", "subscribe", "get "}[r.Intn(6)]
+		}
 		body := ""
 		switch r.Intn(5) {
 		case 0: // no payload
